@@ -8,6 +8,9 @@ def c06_check(ua, ua2, ub, mag_a, mag_b, op, ns):
     from measured.conversions import ConversionNotFound
     from native import oracle
     A, A2, B = eval(ua, ns), eval(ua2, ns), eval(ub, ns)
+    from decimal import Decimal as _D
+    if isinstance(mag_a, str): mag_a = _D(mag_a)   # Decimal magnitudes travel as text (replay files, JSON)
+    if isinstance(mag_b, str): mag_b = _D(mag_b)
     a, b = mag_a * A, mag_b * B
     try:
         a2 = a.in_unit(A2)
@@ -51,7 +54,7 @@ def c06_check(ua, ua2, ub, mag_a, mag_b, op, ns):
                 bad.append("pow: SI value %r vs %r" % (v1, v2))
         elif op in ("eq", "lt"):
             # away from ties: compare a with 1.01*a re-expressed
-            hi = (mag_a * 1.01) * A
+            hi = (mag_a * (1.01 if not isinstance(mag_a, _D) else _D("1.01"))) * A
             hi2 = hi.in_unit(A2)
             try:
                 obs = (a < hi2, a2 < hi, hi2 > a, a == hi2, hi == a2)
@@ -115,6 +118,8 @@ def run(tier, seed):
                 if rng.random() < 0.7 and not ub.startswith("(("):
                     ub = "(%s*%s)" % (rng.choice(g.prefixes + g.prefixes2), ub)
         ma, mb = rng.choice([3, 2.5, 40, 0.125]), rng.choice([2, 7.5, 0.5])
+        if op in ("add", "sub", "eq", "lt") and rng.random() < 0.2:
+            ma, mb = rng.choice(["2.5", "40", "8192"]), rng.choice(["2", "7.5", "3"])  # Decimal on both sides (Decimal and float do not mix in + -)
         try:
             bad = c06_check(ua, ua2, ub, ma, mb, op, ns)
         except Exception as e:
